@@ -18,9 +18,13 @@ pub struct Case {
 }
 
 fn strategy(_t: Tier) -> BoxedStrategy<Case> {
-    arb_fam_pair(0, 14)
-        .prop_map(|(fam, a, b)| Case { fam, a, b })
-        .boxed()
+    // the dynamic type has no size limit: about one case in 4000 uses 15..=18 variables
+    let huge = (15usize..=18).prop_flat_map(|n| (arb_tt(n), arb_tt(n)).prop_map(|(a, b)| Case { fam: Fam::Dyn, a, b }));
+    prop_oneof![
+        4000 => arb_fam_pair(0, 14).prop_map(|(fam, a, b)| Case { fam, a, b }),
+        1 => huge,
+    ]
+    .boxed()
 }
 
 fn run(c: &Case) -> Verdict {
@@ -120,7 +124,7 @@ fn enumerate(t: Tier, shard: usize, nshards: usize, f: &mut dyn FnMut(Case) -> b
 pub fn def() -> PropDef {
     PropDef {
         id: "C01",
-        rule: "cases = (family, a, b) with a from the table generator (uniform/wordwise/shared-word/sparse/symmetric/expression/constant classes, n in 0..=12 for LutN and 0..=14 for Lut) and b fresh or related to a (equal, complement, 1-2 bits or one word changed); every case runs all 4 NOT forms and all 8 forms of AND, OR, XOR — on (a, b) and on (a, a) with the same object passed as both operands — and compares value(m) for every m with the definition. Non-trivial = a and b non-constant and b not in {a, !a}; distinct by (family, a, b). Exhaustive part: every ordered pair of functions of n <= 3, both families (both tiers).",
+        rule: "cases = (family, a, b) with a from the table generator (uniform/wordwise/shared-word/sparse/symmetric/expression/constant classes, n in 0..=12 for LutN and 0..=14 for Lut, about one case in 4000 with 15..=18) and b fresh or related to a (equal, complement, 1-2 bits or one word changed); every case runs all 4 NOT forms and all 8 forms of AND, OR, XOR — on (a, b) and on (a, a) with the same object passed as both operands — and compares value(m) for every m with the definition. Non-trivial = a and b non-constant and b not in {a, !a}; distinct by (family, a, b). Exhaustive part: every ordered pair of functions of n <= 3, both families (both tiers).",
         assumptions: vec![
             "value() and from_blocks()/set_bit() are used to load and observe tables; a table that cannot be loaded and read back is skipped (label skipped:unloadable), not reported here",
             "bits above 2^n in blocks() are deliberately not inspected (that is C02)",
